@@ -262,11 +262,20 @@ def t2(ctx):
     def coq_path(p):
         return "[" + "; ".join(coq_bytes(x.encode()) for x in p) + "]"
 
+    raised = 0
     for cur in P3:
         h = (0, 0)
         for tgt in P3:
             for kind in KINDS:
-                r, imp = impl(".".join(cur), "." + ".".join(tgt + (kind,)), True, False, "direct")
+                try:
+                    r, imp = impl(".".join(cur), "." + ".".join(tgt + (kind,)), True, False, "direct")
+                except Exception as e:  # noqa  the plugin itself would crash on this reference
+                    if raised < 3:
+                        ctx.fail("oracle", f"get_type_reference(package={'.'.join(cur)!r}, source_type={'.' + '.'.join(tgt + (kind,))!r}) "
+                                 f"raised {type(e).__name__}: {e}", cls=None, input={"package": ".".join(cur), "source_type": "." + ".".join(tgt + (kind,))})
+                    raised += 1
+                    h = hmix(h, -2)
+                    continue
                 h = hmix_bytes(h, r.encode())
                 h = hmix_bytes(h, imp.encode()) if imp is not None else hmix(h, -1)
                 ctx.count("t2_rel:" + relation(cur, tgt))
@@ -311,7 +320,8 @@ def t2(ctx):
                                             ".google.protobuf.compiler.Version", ".google.Foo", ".google.protobuf2.X",
                                             "google.protobuf.Int32Value", ".google.protobuf.int32value"]
     nwk = 0
-    for cur in ["", "a", "a.b", "google", "google.protobuf", "google.protobuf.compiler", "betterproto", "betterproto.lib"]:
+    wk_curs = ["", "a", "a.b", "google", "google.protobuf", "google.protobuf.compiler", "betterproto", "betterproto.lib"]
+    for cur in (wk_curs if ctx.thorough else wk_curs[:5]):
         for s in wk:
             for unwrap, pyd, comp in [(True, False, "direct"), (True, True, "root"), (True, False, "310"),
                                       (False, False, "direct"), (False, True, "direct")]:
@@ -326,7 +336,7 @@ def t2(ctx):
     # odd segments
     segs = ["a", "b", "c", "a_b", "a1", "a1b", "Cap", "x", "betterproto", "google", "protobuf", "_p", "class", "é", ""]
     tnames = ["Msg", "Outer.Inner", "foo", "foo.Bar", "fooBar", "_X", "X_y.Z", "HTTPReq", "m"]
-    nodd = 1000 if not ctx.thorough else 10000
+    nodd = 700 if not ctx.thorough else 10000
     for _ in range(nodd):
         cur = [rng.choice(segs) for _ in range(rng.choice([0, 1, 1, 2, 2, 3, 4]))]
         if rng.random() < 0.6 and cur:
@@ -751,7 +761,7 @@ def generation(ctx):
     rng = ctx.rng
     t0 = time.time()
     # ---------------------------------------------------------------- all at once, through protoc + plugin executable
-    P_all = paths_over("ab", 2) + [("a", "b", "c"), ("a", "a", "a"), ("c",), ("c", "a", "b")] if not ctx.thorough else paths_over("abc", 3)
+    P_all = paths_over("ab", 2) + [("a", "b", "c"), ("a", "a", "a"), ("a", "b", "a"), ("c",), ("c", "a", "b")] if not ctx.thorough else paths_over("abc", 3)
     edges = {P: list(P_all) for P in P_all}            # everybody references everybody (circular throughout)
     job_all = make_job(0, edges, full=False, label=None)
     r = run_job_protoc(ctx, job_all)
@@ -808,6 +818,7 @@ def generation(ctx):
 
     # K1 / K2b need their own schemas (type names, not package shapes)
     special_witnesses(ctx)
+    wellknown_generation(ctx)
 
 
 def report(ctx, job, r, mode):
@@ -841,6 +852,97 @@ def report(ctx, job, r, mode):
                  input={"packages": job["packages"], "edges": {k: [x["target"] for x in v if "field" in x][:4] for k, v in job["expect"].items()},
                         "protos": job["protos"] if len(job["protos"]) <= 6 else "(all-at-once universe; regenerate with the same seed)",
                         "detail": f})
+
+
+WK_CHECK = r'''
+import datetime, importlib, sys, typing, json
+import betterproto
+root, pyd = sys.argv[1], sys.argv[2] == "1"
+lib = importlib.import_module("betterproto.lib.pydantic.google.protobuf" if pyd else "betterproto.lib.google.protobuf")
+fails, n = [], 0
+def leaves(h, acc):
+    args = typing.get_args(h)
+    if args:
+        for a in args: leaves(a, acc)
+    else:
+        acc.append(h)
+    return acc
+for pkg in ["", "a", "a.b", "google", "google.api"]:
+    try:
+        mod = importlib.import_module(root + ("." + pkg if pkg else ""))
+        h = typing.get_type_hints(mod.Wk, vars(mod)); h2 = mod.Wk._type_hints()
+        exp = {"s": lib.Struct, "a": lib.Any, "e": lib.Empty, "fm": lib.FieldMask, "rs": lib.Struct, "ms": lib.Value, "os": lib.ListValue,
+               "ts": datetime.datetime, "d": datetime.timedelta, "w": int, "bw": bool, "sw": str}
+        for f, cls in exp.items():
+            for hh in (h, h2):
+                lv = [c for c in leaves(hh[f], []) if c not in (str, type(None))] if f not in ("sw",) else [c for c in leaves(hh[f], []) if c is not type(None)]
+                n += 1
+                if lv != [cls]:
+                    fails.append(f"{pkg or '<root>'}.Wk.{f} resolves to {lv}, expected {cls}")
+        for f in ("s", "a", "e", "fm", "rs", "os"):
+            if mod.Wk._betterproto.cls_by_field[f] is not exp[f]:
+                fails.append(f"{pkg or '<root>'}.Wk cls_by_field[{f}] is {mod.Wk._betterproto.cls_by_field[f]}")
+        back = mod.Wk().parse(bytes(mod.Wk(s=lib.Struct(fields={"k": lib.Value(number_value=1.5)}), w=7, ts=datetime.datetime(2020, 1, 2, tzinfo=datetime.timezone.utc))))
+        if type(back.s) is not lib.Struct or back.s.fields["k"].number_value != 1.5 or back.w != 7 or back.ts.year != 2020:
+            fails.append(f"{pkg}.Wk round trip gives {back!r}")
+        mp = mod.WkSvcBase().__mapping__()
+        got = {r.rsplit("/", 1)[1]: (hd.request_type, hd.reply_type) for r, hd in mp.items()}
+        want = {"E": (lib.Empty, lib.Struct), "W": (lib.Int32Value, lib.BoolValue), "T": (lib.Timestamp, lib.Duration)}
+        n += 3
+        if got != want:
+            fails.append(f"{pkg}.WkSvcBase handler types {got}, expected {want}")
+        for m, (i, o) in {"e": want["E"], "w": want["W"], "t": want["T"]}.items():
+            fn = getattr(mod.WkSvcStub, m)
+            ann = {k: (eval(v, dict(vars(mod))) if isinstance(v, str) else v) for k, v in fn.__annotations__.items() if k not in ("timeout", "deadline", "metadata")}
+            ins = [v for k, v in ann.items() if k != "return"]
+            if ins != [i] or ann.get("return") is not o:
+                fails.append(f"{pkg}.WkSvcStub.{m} annotations {ann}, expected {i} -> {o}")
+    except BaseException as ex:
+        fails.append(f"package {pkg!r}: {type(ex).__name__}: {ex}")
+print("RESULT" + json.dumps({"fails": fails, "checked": n}))
+'''
+
+
+def wellknown_generation(ctx):
+    """google.protobuf types referenced from several packages, default and pydantic variants, through protoc + plugin"""
+    from .. import plugin_util as pu
+
+    body = ('import "google/protobuf/struct.proto"; import "google/protobuf/any.proto"; import "google/protobuf/empty.proto";\n'
+            'import "google/protobuf/field_mask.proto"; import "google/protobuf/timestamp.proto"; import "google/protobuf/duration.proto";\n'
+            'import "google/protobuf/wrappers.proto";\n'
+            "message Wk {\n google.protobuf.Struct s = 1; google.protobuf.Any a = 2; google.protobuf.Empty e = 3; google.protobuf.FieldMask fm = 4;\n"
+            " repeated google.protobuf.Struct rs = 5; map<string, google.protobuf.Value> ms = 6; oneof o { google.protobuf.ListValue os = 7; int32 alt = 8; }\n"
+            " google.protobuf.Timestamp ts = 9; google.protobuf.Duration d = 10; google.protobuf.Int32Value w = 11; google.protobuf.BoolValue bw = 12;\n"
+            " google.protobuf.StringValue sw = 13;\n}\n"
+            "service WkSvc {\n rpc E(google.protobuf.Empty) returns (google.protobuf.Struct);\n rpc W(google.protobuf.Int32Value) returns (google.protobuf.BoolValue);\n"
+            " rpc T(google.protobuf.Timestamp) returns (google.protobuf.Duration);\n}\n")
+    protos = {}
+    for P in [(), ("a",), ("a", "b"), ("google",), ("google", "api")]:
+        protos[f"wk/{'-'.join(P) or 'root'}.proto"] = 'syntax = "proto3";\n' + pkg_stmt(P) + body
+    for pyd in (False, True):
+        root = f"c13wk{os.getpid()}_{int(pyd)}"
+        try:
+            rc, out, _ = pu.generate(ctx.work, protos, root, options=(("pydantic_dataclasses",) if pyd else ()))
+            if rc != 0:
+                ctx.fail("oracle", f"well-known generation (pydantic={pyd}) failed: {out[-400:]}", cls=None, input={"protos": protos, "pydantic": pyd})
+                continue
+            e = pu._env(ctx.work)
+            e["PYTHONPATH"] = e["PYTHONPATH"] + ":" + ctx.work
+            r = subprocess.run([lib.PY, "-W", "ignore", "-c", WK_CHECK, root, "1" if pyd else "0"], env=e, capture_output=True, text=True, timeout=300)
+            res = [l for l in (r.stdout + r.stderr).splitlines() if l.startswith("RESULT")]
+            if not res:
+                ctx.fail("oracle", f"well-known check (pydantic={pyd}) did not complete: {(r.stdout + r.stderr)[-600:]}", cls=None,
+                         input={"protos": protos, "pydantic": pyd})
+                continue
+            rr = json.loads(res[0][6:])
+            ctx.count(f"gen_wellknown_checks_pydantic={pyd}", rr["checked"])
+            ctx.cov["evaluations"] += rr["checked"]
+            for f in rr["fails"][:3]:
+                ctx.fail("oracle", f"well-known (pydantic={pyd}): {f}"[:700], cls=None, input={"protos": protos, "pydantic": pyd})
+            if not rr["fails"]:
+                ctx.seen_nontrivial(("wk", pyd))
+        except Exception:  # noqa
+            ctx.fail("oracle", "well-known generation raised: " + traceback.format_exc()[-800:], cls=None, input={"pydantic": pyd})
 
 
 def special_witnesses(ctx):
@@ -877,6 +979,7 @@ def special_witnesses(ctx):
 
 # ======================================================================================================
 def run(ctx):
+    t_run = time.time()
     try:
         hypotheses(ctx)
     except Exception:  # noqa
@@ -887,10 +990,15 @@ def run(ctx):
     except RuntimeError as e:
         ctx.fail("corr", "model evaluation failed: " + str(e)[-1500:], no_input=True,
                  theorem_or_correspondence="T2 correspondence Model/Importing.v")
+    except Exception:  # noqa
+        ctx.fail("corr", "T2 stage raised: " + traceback.format_exc()[-1500:], no_input=True,
+                 theorem_or_correspondence="T2 correspondence Model/Importing.v")
+    t_t2 = time.time()
     try:
         generation(ctx)
     except Exception:  # noqa
         ctx.fail("oracle", "real generation stage raised: " + traceback.format_exc()[-1500:], cls=None, input=None)
+    ctx.notes.append(f"stage times: build+audit {t_run - ctx.t0:.0f}s, hypotheses+T2 {t_t2 - t_run:.0f}s, generation {time.time() - t_t2:.0f}s")
 
 
 def finish(ctx):
